@@ -330,6 +330,28 @@ impl Number {
     }
 }
 
+/// Exact comparison of a fixnum with a float (`None` for NaN).
+///
+/// `lhs as f64` rounds for magnitudes above 2^53, so the float is compared
+/// through its integral part (which converts to i64 exactly once it is known to
+/// lie in [-2^63, 2^63)) and, on a tie, through the sign of its fraction.
+fn cmp_i64_f64(lhs: i64, rhs: f64) -> Option<Ordering> {
+    if rhs.is_nan() {
+        return None;
+    }
+    if rhs >= 9223372036854775808.0 {
+        return Some(Ordering::Less);
+    }
+    if rhs < -9223372036854775808.0 {
+        return Some(Ordering::Greater);
+    }
+    let integral = rhs.trunc();
+    match lhs.cmp(&(integral as i64)) {
+        Ordering::Equal => 0_f64.partial_cmp(&(rhs - integral)),
+        ordering => Some(ordering),
+    }
+}
+
 impl Eq for Number {}
 impl PartialEq for Number {
     fn eq(&self, rhs: &Self) -> bool {
@@ -337,7 +359,7 @@ impl PartialEq for Number {
             Number::Fixnum(lhs) => match rhs {
                 Number::Fixnum(rhs) => lhs == rhs,
                 Number::BigInt(rhs) => BigInt::from(*lhs) == **rhs,
-                Number::Float(rhs) => *lhs as f64 == *rhs,
+                Number::Float(rhs) => cmp_i64_f64(*lhs, *rhs) == Some(Ordering::Equal),
                 Number::Rational(rhs) => {
                     if lhs.to_i32().is_some() {
                         Rational32::from_integer(*lhs as i32) == *rhs
@@ -356,7 +378,7 @@ impl PartialEq for Number {
                 },
             },
             Number::Float(lhs) => match rhs {
-                Number::Fixnum(rhs) => *lhs == *rhs as f64,
+                Number::Fixnum(rhs) => cmp_i64_f64(*rhs, *lhs) == Some(Ordering::Equal),
                 Number::Float(rhs) => lhs == rhs,
                 Number::BigInt(rhs) => *lhs == rhs.to_f64().unwrap(),
                 Number::Rational(rhs) => match rhs.to_f64() {
@@ -392,7 +414,7 @@ impl PartialOrd for Number {
             Number::Fixnum(lhs) => match rhs {
                 Number::Fixnum(rhs) => lhs.partial_cmp(rhs),
                 Number::BigInt(rhs) => BigInt::from(*lhs).partial_cmp(&**rhs),
-                Number::Float(rhs) => (*lhs as f64).partial_cmp(rhs),
+                Number::Float(rhs) => cmp_i64_f64(*lhs, *rhs),
                 Number::Rational(rhs) => {
                     if lhs.to_i32().is_some() {
                         Rational32::from_integer(*lhs as i32).partial_cmp(rhs)
@@ -411,7 +433,7 @@ impl PartialOrd for Number {
                 },
             },
             Number::Float(lhs) => match rhs {
-                Number::Fixnum(rhs) => lhs.partial_cmp(&(*rhs as f64)),
+                Number::Fixnum(rhs) => cmp_i64_f64(*rhs, *lhs).map(Ordering::reverse),
                 Number::Float(rhs) => lhs.partial_cmp(rhs),
                 Number::BigInt(rhs) => lhs.partial_cmp(&(**rhs).to_f64().unwrap()),
                 Number::Rational(rhs) => lhs.partial_cmp(&rhs.to_f64().unwrap()),
